@@ -51,6 +51,7 @@ pub struct Case {
     pub enabled: Vec<String>,
     pub disabled: Vec<String>,
     pub patterns: Vec<String>,
+    pub asyncs: Vec<Value>,
     pub meta: Value,
 }
 
@@ -181,7 +182,7 @@ pub fn case_json(ctx: &mut Ctx, case: &Case) -> Value {
     let mut j = json!({
         "op": "pipeline", "files": files, "walk": case.walk, "allow": case.allow, "ignore": case.ignore,
         "scan": case.scan, "extra": case.extra, "enabled": case.enabled, "disabled": case.disabled,
-        "regex": regex, "async": [], "meta": case.meta,
+        "regex": regex, "async": case.asyncs, "meta": case.meta,
     });
     if let Some(d) = &case.diff {
         j["diff"] = json!(d);
@@ -406,6 +407,7 @@ pub fn case_from_json(j: &Value) -> Case {
         enabled: strs("enabled"),
         disabled: strs("disabled"),
         patterns,
+        asyncs: j.get("async").and_then(|v| v.as_array()).cloned().unwrap_or_default(),
         meta: j.get("meta").cloned().unwrap_or(Value::Null),
     }
 }
